@@ -46,7 +46,12 @@ func scenarioC02(r *Run) {
 		{Channel: "beta", Kind: "tcp", Addr: "127.0.0.1:6002"},
 		// a listener for a channel the server does not offer: connections to it are refused
 		{Channel: "ghost", Kind: "tcp", Addr: "127.0.0.1:6003"},
+		// a channel whose target does not answer the connect (SYN lost): the server's dial hangs for the
+		// operating system's connect timeout, about two minutes
+		{Channel: "omega", Kind: "tcp", Addr: "127.0.0.1:6004"},
 	}
+	cfg.Channels = append(cfg.Channels, ChanCfg{Name: "omega", Target: "tcp://" + TargetIP + ":7003"})
+	r.Net.SetDialFate("tcp", TargetIP+":7003", 2)
 	k := 2 + c.Pick(5, "k")
 	maxPayload := payloadCap(r, carrier) / 4
 	if maxPayload > 192*1024 {
@@ -92,6 +97,11 @@ func scenarioC02(r *Run) {
 			lc.Mode = "paused-app"
 		case m == 6:
 			lc.Mode = "paused-target"
+		case m == 7 && c.Chance(1, 4, "hanging-connect") && i > 0:
+			// asks for the channel whose target does not answer: the server's connect hangs while the
+			// others are opened and used
+			lc.Mode = "hanging"
+			lc.Lsn = cfg.Listeners[3]
 		case m == 7 && c.Chance(1, 3, "refused") && i > 0:
 			// asks for a channel the server refuses, while the others are open
 			lc.Mode = "refused"
@@ -200,6 +210,9 @@ func scenarioC02(r *Run) {
 	extra := func() []Ev { return append(cs.OpenEv(beforeOpen), cs.PeerEvents()...) }
 	// a connection that was closed on purpose in mid-transfer is over: nothing more is demanded of it
 	ended := func(lc *LConn) bool {
+		if lc.Mode == "hanging" {
+			return lc.App != nil // nothing is demanded of it; the others must not wait for it
+		}
 		if lc.Mode == "refused" {
 			if lc.App == nil {
 				return false
@@ -245,8 +258,20 @@ func scenarioC02(r *Run) {
 		r.YieldsOn("yield-seed")
 		r.Count("connections_opened_together")
 	}
+	t1 := r.SimElapsed()
 	out := r.Drive(pol, goal, extra, 60*time.Second, 30*time.Minute)
 	r.YieldsOff()
+	hanging := false
+	for _, lc := range conns {
+		hanging = hanging || lc.Mode == "hanging"
+	}
+	if took := r.SimElapsed() - t1; out == GoalMet && hanging && !stallFault && !CarrierIsDNS(carrier) && took > 100*time.Second {
+		// Nothing in this phase takes simulated minutes (deliveries are instantaneous, paused readers are
+		// resumed later) - except the one connect that hangs for the operating system's 127 s. The other
+		// connections must not have waited for it.
+		r.FailSig("progress", "phase=behind-hanging-connect carrier="+carrierClass(carrier), "the connections next to one whose target did not answer the connect took %v to complete: they waited for it: %v", took, cs.Describe())
+		return
+	}
 	if out == Aborted {
 		return
 	}
@@ -309,7 +334,7 @@ func scenarioC02(r *Run) {
 		r.Count("lingering_runs")
 		var live []*LConn
 		for _, lc := range conns {
-			if lc.Mode == "refused" || lc.Mode == "closing-app" || lc.Mode == "closing-target" || lc.Tp == nil || lc.App == nil {
+			if lc.Mode == "refused" || lc.Mode == "hanging" || lc.Mode == "closing-app" || lc.Mode == "closing-target" || lc.Tp == nil || lc.App == nil {
 				continue
 			}
 			na, nt := 1+c.Pick(2000, "linger-app-bytes"), 1+c.Pick(2000, "linger-tgt-bytes")
@@ -338,6 +363,12 @@ func scenarioC02(r *Run) {
 		cs.CheckPairing("isolation")
 	}
 	for _, lc := range conns {
+		if lc.Mode == "hanging" {
+			r.Count("hanging_connects_among_live_connections")
+			if _, rc, _, _, _, _ := lc.App.Snapshot(); rc > 0 || lc.Tp != nil {
+				r.Fail("isolation", "a connection for a channel whose target never answered received %d bytes", rc)
+			}
+		}
 		if lc.Mode == "refused" {
 			r.Count("refused_opens_among_live_connections")
 			if _, rc, _, _, _, _ := lc.App.Snapshot(); rc > 0 || lc.Tp != nil {
